@@ -91,7 +91,7 @@ def spec_item(rec, item):
     lits = lits[:4] + lits[-4:]
   for lit in lits:
     trd = dict(tr, dna=lit)
-    dna = pg.DNA(lit, spec=spec)
+    dna = pg.DNA(D.ctor(lit), spec=spec)
     rec.evals += 1
     ok = True
     # numbers
